@@ -32,7 +32,48 @@ def alias_of_another_class():
             "P().foo()": verdict}
 
 
-PROBES = {"kf_C17_alias": alias_of_another_class}
+def class_passes_the_metaclass_twice():
+    """A sub-class that weakens an inherited precondition and is then re-created from its own namespace (what
+    dataclasses.dataclass(slots=True) and other class decorators do), and one whose weakened method has a second name in
+    the class body: the effective precondition is still `inherited OR own`."""
+    log = []
+
+    def base_pre(x):
+        log.append("base")
+        return x > 0
+
+    def own_pre(x):
+        log.append("own")
+        return x < -100
+
+    class A(icontract.DBC):
+        @icontract.require(base_pre)
+        def book(self, x):
+            return x
+
+    class B(A):
+        @icontract.require(own_pre)
+        def book(self, x):
+            return x
+        correct = book
+
+    ns = {k: v for k, v in B.__dict__.items() if k not in ("__dict__", "__weakref__")}
+    B2 = type(B)(B.__name__, B.__bases__, ns)
+    verdicts = {}
+    for label, obj, call in (("recreated/own only", B2(), -500), ("recreated/inherited only", B2(), 5),
+                             ("recreated/neither", B2(), -5), ("alias/own only", B(), -500), ("alias/inherited only", B(), 5),
+                             ("alias/neither", B(), -5)):
+        try:
+            (obj.correct if label.startswith("alias") else obj.book)(call)
+            verdicts[label] = "accepted"
+        except icontract.ViolationError:
+            verdicts[label] = "rejected"
+    expected = {"recreated/own only": "accepted", "recreated/inherited only": "accepted", "recreated/neither": "rejected",
+                "alias/own only": "accepted", "alias/inherited only": "accepted", "alias/neither": "rejected"}
+    return {"reproduced": verdicts != expected, "verdicts": verdicts, "expected": expected}
+
+
+PROBES = {"kf_C17_alias": alias_of_another_class, "twice_through_the_metaclass": class_passes_the_metaclass_twice}
 
 
 def main():
